@@ -49,6 +49,7 @@ class ExpandingDriver:
         self.effective = 0
         self.pushes = 0
         self.window = {}  # key -> effective-insertion index of its latest real insertion
+        self.inserted = set()  # keys that were certainly inserted (expanding filters never forget them)
         self.feats = set()
         self.dir = None
         self.nfile = 0
@@ -70,9 +71,18 @@ class ExpandingDriver:
             self.feats.add("rotation_dropped_filter")
         self.model.append(0)
 
-    def _add(self, key, force, label):
+    def _add(self, key, force, label, precheck=True):
         ctx, o = self.ctx, self.obj
-        present = ctx.call(self.noexc, o.check, key)
+        if precheck or self.rot or (key not in self.inserted and not force):
+            present = ctx.call(self.noexc, o.check, key)
+        elif force and key not in self.inserted:
+            present = False  # irrelevant: a forced add is always effective
+            self.feats.add("add_without_preceding_lookup")
+        else:
+            # an expanding filter never drops a filter: a key inserted earlier is certainly still reported present, so the add
+            # can be issued WITHOUT a look-up right before it (a look-up would reset any per-lookup cache in the library)
+            present = True
+            self.feats.add("add_without_preceding_lookup")
         ctx.call(self.noexc, o.add, key, force)
         self.add_calls += 1
         eff = force or not present
@@ -86,6 +96,7 @@ class ExpandingDriver:
             if self.model[-1] == self.est:
                 self.feats.add("boundary_est-th")
             self.effective += 1
+            self.inserted.add(key)
             if self.rot and not present:
                 # reported absent just before the add: the recency guarantee starts here
                 self.window[key] = self.effective
@@ -102,11 +113,31 @@ class ExpandingDriver:
             self.used += 1
             self._add(k, False, "new")
         elif kind == "dup":
-            self._add(self.key(op[1] % self.used), False, "dup")
+            self._add(self.key(op[1] % self.used), False, "dup", precheck=(len(op) < 3 or not op[2]))
             self.feats.add("dup")
         elif kind == "forced":
-            self._add(self.key(op[1] % self.used), True, "forced")
+            self._add(self.key(op[1] % self.used), True, "forced", precheck=(len(op) < 3 or not op[2]))
             self.feats.add("forced")
+        elif kind == "probe":
+            # a stand-alone look-up (no add): of a brand-new key (which is thereby 'used' but not inserted) or of an earlier one
+            if op[1] % 2 == 0 or self.used == 0:
+                k = self.key(self.used)
+                self.used += 1
+            else:
+                k = self.key(op[1] % self.used)
+            r = ctx.call(self.noexc, o.check, k)
+            if not self.rot and k in self.inserted and self._o("growth"):
+                ctx.check(self._o("growth"), r is True, lambda: f"stand-alone check({k!r}) of an inserted key -> {r!r}")
+            self.feats.add("probe")
+            ctx.op("probe", repr(k), bool(r))
+            return
+        elif kind == "bulk":
+            n = 1 + op[1] % (self.est + 6)
+            for _ in range(n):
+                k = self.key(self.used)
+                self.used += 1
+                self._add(k, False, "new")
+            self.feats.add("bulk")
         elif kind == "push":
             ctx.call(self.noexc, o.push)
             self._model_new_filter()
@@ -227,7 +258,8 @@ def case_strategy(tier, rot, max_ops=80):
 
     i = st.integers(0, 40)
     base = [st.tuples(st.just("new")), st.tuples(st.just("new")), st.tuples(st.just("new")),
-            st.tuples(st.just("dup"), i), st.tuples(st.just("forced"), i),
+            st.tuples(st.just("dup"), i, st.booleans()), st.tuples(st.just("forced"), i, st.booleans()),
+            st.tuples(st.just("probe"), i), st.tuples(st.just("bulk"), st.integers(0, 400)),
             st.tuples(st.just("reload"), st.integers(0, 2))]
     rare = [st.tuples(st.just("push"))] + ([st.tuples(st.just("pop"))] if rot else [])
 
@@ -237,8 +269,9 @@ def case_strategy(tier, rot, max_ops=80):
         op = st.one_of(*(base + (rare * 2 if with_pushpop else [])))
         return {
             "rot": rot,
-            "est": draw(st.one_of(st.integers(1, 5), st.integers(1, 3), st.integers(1, 50 if not rot else 8))),
-            "fpr": draw(st.sampled_from([0.05, 0.01, 0.001, 0.2, 0.5, 0.0001, 0.3])),
+            "est": draw(st.one_of(st.integers(1, 5), st.integers(1, 3), st.integers(1, 50 if not rot else 8),
+                                  st.integers(1, (300 if tier == "quick" else 2500) if not rot else 8))),
+            "fpr": draw(st.sampled_from([0.05, 0.01, 0.001, 0.2, 0.5, 0.0001, 0.3, 0.35, 0.4, 0.1])),
             "q": draw(st.integers(1, 4)),
             "hash": draw(gen.hash_name_st(gen.GOOD_HASHES + ["pairs"])),
             "ops": [list(o) for o in draw(st.lists(op, min_size=5, max_size=max_ops))],
